@@ -1,7 +1,6 @@
 package c15
 
 import (
-	"bytes"
 	"compress/gzip"
 	"fmt"
 	"io"
@@ -42,8 +41,7 @@ func spzDecode(c *run.Ctx) (res run.Result) {
 	res.SetAdd("spz/header_configs", fmt.Sprintf("v%d/sh%d/fb%d", version, deg, fb))
 	res.SetAdd("spz/fractional_bits", fmt.Sprint(fb))
 	res.SetAdd("spz/counts", nBucket(n))
-	c.SaveInput(data)
-	if !checkSPZ(c, &res, s, bytes.NewReader(data), len(data), level, "") || n == 0 {
+	if !checkSPZ(c, &res, s, data, level, "") || n == 0 {
 		return
 	}
 	if nonFinite {
@@ -66,18 +64,21 @@ type v3At interface {
 // checkSPZ feeds one reference-encoded stream to spz.Read and compares every attribute
 // of every point, per index, with the published dequantisation of the packed arrays.
 // ctx is appended to the violation site. Returns false when a violation was recorded.
-func checkSPZ(c *run.Ctx, res *run.Result, s *splatref.SPZ, in io.Reader, streamBytes, level int, ctx string) bool {
-	return checkSPZFrom(c, res, s, in, streamBytes, level, ctx, nil)
+func checkSPZ(c *run.Ctx, res *run.Result, s *splatref.SPZ, data []byte, level int, ctx string) bool {
+	c.SaveInput(data)
+	rd, kind, release := openKind(c, res, "spz.Read", "spz.Read"+ctx, data)
+	defer release()
+	return checkSPZFrom(c, res, s, rd, kind, len(data), level, ctx, nil)
 }
 
 // checkSPZFrom: when failed is non-nil the source may fail; an error from spz.Read is then
 // the reported failure (*failed = true) and not a violation, while a result returned
 // without error must still be the complete, exact cloud.
-func checkSPZFrom(c *run.Ctx, res *run.Result, s *splatref.SPZ, in io.Reader, streamBytes, level int, ctx string, failed *bool) bool {
+func checkSPZFrom(c *run.Ctx, res *run.Result, s *splatref.SPZ, in io.Reader, kind string, streamBytes, level int, ctx string, failed *bool) bool {
 	n, version, deg, fb := s.N, s.Version, s.SHDegree, s.FracBits
 	dim := splatref.SHDim(deg)
 	before := len(res.Violations)
-	input := fmt.Sprintf("SPZ v%d, %d points, SH degree %d, %d fractional bits", version, n, deg, fb)
+	input := fmt.Sprintf("SPZ v%d, %d points, SH degree %d, %d fractional bits, stream read through %s", version, n, deg, fb, kind)
 	site := "spz.Read" + ctx
 	witness := func(i int) any {
 		w := map[string]any{"version": version, "points": n, "sh_degree": deg, "fractional_bits": fb, "flags": s.Flags, "gzip_level": level, "point": i}
